@@ -89,7 +89,10 @@ def build(ty: int, ks: int, attrs, ctx: str, ent: int, doc: int):
     ent_text = name + ("(5)" if entity == "dims" else "*20" if entity == "charlen" else "")
     value = None
     if "parameter" in attrs:
-        value = {"integer": "42", "real": "1.5", "logical": ".true.", "complex": "(1.0, 2.0)", "character": "'ab'", "double precision": "2.d0"}[tname]
+        values = {"integer": ["42", "n*2 - 1", "merge(1, 2, n == wp)"], "real": ["1.5", "real(n)/2.0"],
+                  "logical": [".true.", "wp >= 3", "wp == n", "n /= wp .and. wp <= 8"], "complex": ["(1.0, 2.0)"],
+                  "character": ["'ab'", "'a = b'"], "double precision": ["2.d0"]}[tname]
+        value = values[(ks + ent + doc + len(attrs)) % len(values)]
         ent_text += " = " + value
     decl = f"{tname}{ksel}" + "".join(", " + a for a in attrs) + " :: " + ent_text
     docs = {"none": None, "before": "the var doc", "after": "the var doc", "trailing": "the var doc",
